@@ -12,7 +12,7 @@ use refimpl as r;
 use refimpl::{Mode, Poly, MODES};
 use serde_json::json;
 
-const RULE: &str = "public keys: all-0, all-FF, t1 = 1023 everywhere (t1*2^d = q-1), every single coefficient slot of polynomial 0 and k-1 set to 0/1/1022/1023 over a random background, random byte strings, honest keys -> try_from_bytes must be Ok and into_bytes must return the input bytes. Private keys: structure-aware accepted encodings (every s1/s2 coefficient -eta, +eta, alternating, zero, random; t0 all +2^12, all -2^12+1, random extremes, random; arbitrary rho/K/tr) and honest keys -> into_bytes returns the input (checked build: no self-check fires). Behaviour: original vs round-tripped sk give identical signatures for identical (M, ctx, mode, rnd); original vs round-tripped pk give identical decisions on valid signatures, bit-flipped mutants and degenerate-key boundary forgeries. Non-trivial = distinct key byte strings whose round trip was compared.";
+const RULE: &str = "public keys: all-0, all-FF, t1 = 1023 everywhere (t1*2^d = q-1), every single coefficient slot of polynomial 0 and k-1 set to 0/1/1022/1023 over a random background, each single polynomial all-zero / all-1023 with the others random and the converse, random byte strings, honest keys -> try_from_bytes must be Ok and into_bytes must return the input bytes. Private keys: structure-aware accepted encodings (every s1/s2 coefficient -eta, +eta, alternating, zero, random; t0 all +2^12, all -2^12+1, random extremes, random; each single s1/s2/t0 polynomial at a range end with the others random; arbitrary rho/K/tr) and honest keys -> into_bytes returns the input (checked build: no self-check fires). Behaviour: original vs round-tripped sk give identical signatures for identical (M, ctx, mode, rnd); original vs round-tripped pk give identical decisions on valid signatures, bit-flipped mutants and degenerate-key boundary forgeries. Non-trivial = distinct key byte strings whose round trip was compared.";
 
 pub fn run(ctx: &Ctx) -> StageOut {
     let mut acc = Acc::new();
@@ -85,6 +85,38 @@ fn run_set<S: PS>(ctx: &Ctx) -> Acc {
         pk_roundtrip::<S>(&mut acc, "t1-all-1022", &r::pk_encode(&g.bytes(32), &t1));
         let t1: Vec<Poly> = vec![[1i64; 256]; p.k];
         pk_roundtrip::<S>(&mut acc, "t1-all-1", &r::pk_encode(&g.bytes(32), &t1));
+    }
+    // one whole polynomial degenerate (all-zero / all-ones fields), the others random — and the converse
+    {
+        let mut g = Prng::derive(ctx.seed, &format!("c09-polys-{}", p.name), 0);
+        for k in 0..p.k {
+            for (name, val) in [("zero", 0i64), ("1023", 1023)] {
+                let mut t1: Vec<Poly> = (0..p.k).map(|_| core::array::from_fn(|_| g.range(0, 1023))).collect();
+                t1[k] = [val; 256];
+                pk_roundtrip::<S>(&mut acc, &format!("one-polynomial-all-{name}"), &r::pk_encode(&g.bytes(32), &t1));
+                let mut t1: Vec<Poly> = vec![[val; 256]; p.k];
+                t1[k] = core::array::from_fn(|_| g.range(0, 1023));
+                pk_roundtrip::<S>(&mut acc, &format!("all-but-one-polynomial-{name}"), &r::pk_encode(&g.bytes(32), &t1));
+            }
+        }
+        // private keys: one s1 / s2 / t0 polynomial at a range end (all-zero or all-ones field bytes), others random
+        let top = 1i64 << 12;
+        for which in 0..(p.l + 2 * p.k) {
+            for hi in [true, false] {
+                let mut s1: Vec<Poly> = (0..p.l).map(|_| gen::s_poly(&mut g, p.eta, SPat::Random)).collect();
+                let mut s2: Vec<Poly> = (0..p.k).map(|_| gen::s_poly(&mut g, p.eta, SPat::Random)).collect();
+                let mut t0: Vec<Poly> = (0..p.k).map(|_| gen::t0_poly(&mut g, T0Pat::Random)).collect();
+                if which < p.l {
+                    s1[which] = [if hi { p.eta } else { -p.eta }; 256];
+                } else if which < p.l + p.k {
+                    s2[which - p.l] = [if hi { p.eta } else { -p.eta }; 256];
+                } else {
+                    t0[which - p.l - p.k] = [if hi { top } else { -top + 1 }; 256];
+                }
+                let sk = r::sk_encode(p, &g.bytes(32), &g.bytes(32), &g.bytes(64), &s1, &s2, &t0);
+                let _ = sk_roundtrip::<S>(&mut acc, "one-polynomial-at-range-end", &sk);
+            }
+        }
     }
     // single-coefficient extremes
     let slot_jobs = 256usize;
